@@ -13,7 +13,12 @@ NOT_SHOWN = {
  "C14": ["integral forms are theorems ONLY for axis-aligned closed boxes (flux of B, six face integrals) and axis-aligned rectangles in coordinate planes (circulation of H, four line "
          "integrals) that lie within a region where the field is smooth: Dipole — box / filled rectangle not containing the origin (dipole_box_flux_zero, dipole_rect_circulation_zero); "
          "Cuboid closed form and the BHJM_magnet_cuboid row — box within one of the 27 cells cut out by the six face planes, resp. clear of the wrapper's 1e-15 shells "
-         "(cuboid_box_flux_zero, cuboid_rect_circulation_zero, cuboid_wrapper_box_laws); Sphere — box strictly inside or strictly outside the ball (sphere_box_laws_inside/_outside). "
+         "(cuboid_box_flux_zero, cuboid_rect_circulation_zero, cuboid_wrapper_box_laws); Sphere — box strictly inside or strictly outside the ball (sphere_box_laws_inside/_outside); "
+         "Triangle sheet (BHJM_triangle row), Tetrahedron (BHJM_magnet_tetrahedron row, inside test and chirality fix included) and the sheet sum of a TriangularMesh row plus a constant — "
+         "closed box EVERY point of which satisfies TriClear w.r.t. every face: off the face planes, solid angle strictly below the clamp 6.2831853, strictly outside the on_edge tubes "
+         "(triangle_box_flux_zero, triangle_rect_circulation_zero, tetra_box_flux_zero, tetra_rect_circulation_zero, trimesh_row_box_flux_zero, trimesh_row_rect_circulation_zero); such a box "
+         "lies on one side of every face plane, i.e. beside a sheet, entirely outside or entirely INSIDE a Tetrahedron (there B = mu0 H + J, J constant: tetra_B_on_box); checkable sufficient "
+         "condition TriFarBox (triFarBox_triClear): eight corners on one side of the plane with |N| >= m (N = 2 area x signed distance), 16 rho0^2 rho1^2 rho2^2 <= 1e16 m^2, 1e-30 l_i^2 |A|^2 < m^2. "
          "Generic: box_flux_zero_of_div_free / rect_circulation_zero_of_curl_free (1-D fundamental theorem + Fubini; partial derivatives continuous on the closed box)",
          "NOT shown by theorem: surfaces that are not axis-aligned boxes and loops that are not axis-aligned rectangles (rotated boxes, spheres, circles, polygons: Mathlib has the divergence "
          "theorem for boxes only and no Stokes theorem); boxes that CUT a CHARGED face of the Cuboid (J.n != 0) — the splitting argument is a theorem (BoxLaws.box_flux_zero_of_split_x: piecewise "
@@ -22,12 +27,17 @@ NOT_SHOWN = {
          "statement for the wrapper row (its 1e-15 shells have positive measure), for circulation across a Cuboid face, or for the Sphere surface (pointwise interface conditions only: "
          "sphere_interface_model); boxes enclosing the Dipole position",
          "Ampere's law with non-zero threading current (Circle, closed Polyline: linking-number form), curl H = 0 for closed polylines off the wire, and every integral statement for Cylinder, "
-         "CylinderSegment, Tetrahedron, TriangularMesh, Circle, Polyline and collections: flux / circulation quadrature oracle only",
-         "Triangle / Tetrahedron / TriangularMesh rows have LOCAL theorems only (triangle_partials, triangle_div_free, triangle_curl_free, tetra_H_curl_free, tetra_B_div_free, "
-         "trimesh_row_div_free: explicit Jacobian of triangle_Bfield, trace 0, symmetric) and only at observers off the planes of the faces where the code does not clamp the solid angle "
-         "(|Omega| < 6.2831853 strictly) and strictly outside the on_edge tubes (rho2 > 1e-30 l2 alongside an edge); inside the clamp band (known finding triangle-split:clamp-band, "
-         "witness triangle_clamp_band_excluded) and across the tube boundary the model is discontinuous; the inside mask of a TriangularMesh row (ray casting) is a parameter "
-         "(trimesh_row_B_div_free takes it as locally constant); oracle: the proved Jacobian against 4th-order differences of the real triangle_Bfield (1e-6)",
+         "CylinderSegment, Circle, Polyline and collections: flux / circulation quadrature oracle only",
+         "Triangle / Tetrahedron / TriangularMesh rows: the local theorems (triangle_partials, triangle_div_free, triangle_curl_free, tetra_H_curl_free, tetra_B_div_free, trimesh_row_div_free: "
+         "explicit Jacobian of triangle_Bfield, trace 0, symmetric) and the box / rectangle theorems built on them hold only where every observer is off the planes of the faces, the code "
+         "does not clamp the solid angle (|Omega| < 6.2831853 strictly) and the observer is strictly outside the on_edge tubes (rho2 > 1e-30 l2 alongside an edge). NOT shown: boxes / rectangles that "
+         "CUT the plane of a face — a box through a sheet (flux = enclosed magnetic charge sigma x area, the oracle's sensitivity probe), a box across the surface of a Tetrahedron / "
+         "TriangularMesh (needs the jump of B_n across a charged triangle: one-sided continuations of the solid-angle term, as for the charged Cuboid face), a box that meets the EXTENDED "
+         "plane of a face outside the triangle (the field is smooth there but TriClear asks N != 0); boxes inside the clamp band (known finding triangle-split:clamp-band, witness "
+         "triangle_clamp_band_excluded) or touching a tube: the model is discontinuous there; the inside mask of a TriangularMesh row (ray casting) is a PARAMETER of the model — "
+         "trimesh_row_box_flux_zero takes what it adds as a constant on the box (J inside, 0 outside) and does not derive that from the mesh; no statement for the full BHJM_magnet_trimesh batch "
+         "(grouping loop) in integral form. Oracle: the proved Jacobian against 4th-order differences of the real triangle_Bfield (1e-6); Gauss-Legendre flux / four-side circulation for boxes "
+         "beside Triangle sheets, inside and outside Tetrahedra and TriangularMeshes that satisfy TriFarBox face by face (1e-6 relative; observed 1e-14)",
          "the straight segment has only the pointwise div H = 0 of the UNMASKED kernel (segment_B_div_free is about q -> mu0 * segmentH q, not about the masked wrapper, which is not differentiable "
          "across the 1e-15 on-line mask); no box-flux theorem for it (continuity of its partial derivatives on a box not proved)",
          "the integral theorems are about the real-number model (exact Lebesgue integrals of the model functions at carrier R); the oracle's Gauss-Legendre sums of float64 values are compared with 0 "
